@@ -52,6 +52,7 @@ class Ctx:
         self.extra: dict[str, Any] = {}
         self.assumptions: set[str] = {'A1', 'A4', 'A6'}
         self.explanation = ''
+        self.incomplete: list[str] = []
 
     # --- bookkeeping -----------------------------------------------------
     def rule(self, rid: str, text: str, floor: int = 0) -> None:
@@ -103,6 +104,14 @@ class Ctx:
     def floors(self) -> None:
         for rid in self.rules:
             self.floor(rid)
+
+    def do(self, fn: Callable, *args: Any, **kw: Any) -> None:
+        """Run one rule; an AnalysisError inside it is remembered (exit 2 unless another rule finds a
+        definite violation) and the remaining rules still run."""
+        try:
+            fn(self, *args, **kw)
+        except AnalysisError as e:
+            self.incomplete.append(f'{getattr(fn, "__name__", fn)}: {e}')
 
     def sample(self, s: Any) -> None:
         if len(self.samples) < 40:
